@@ -303,6 +303,26 @@ pub fn hyphen_configs() -> Vec<Conv> {
         s.args.push(ArgSpec::flag("x", Some('x'), None));
         c.subs.push(s);
     }));
+    push("hyphen:multi-positional+short-alias", base(&|c| {
+        c.arg_mut("a").unwrap().short_aliases.push('e');
+        c.arg_mut("o").unwrap().visible_short_aliases.push('O');
+        c.args.push(multi_pos(true, false, 1));
+    }));
+    push("posorder:low-index-multiple+sub", {
+        let mut c = CmdSpec::new("prog");
+        c.args.push(ArgSpec::flag("a", Some('a'), Some("alpha")));
+        let mut files = ArgSpec::pos("files", 1);
+        files.num_args = Some((1, None));
+        files.required = true;
+        c.args.push(files);
+        let mut t = ArgSpec::pos("target", 2);
+        t.required = true;
+        c.args.push(t);
+        let mut s = CmdSpec::new("sub");
+        s.args.push(ArgSpec::flag("x", Some('x'), None));
+        c.subs.push(s);
+        c
+    });
     push("posorder:allow_missing_positional+sub", {
         let mut c = CmdSpec::new("prog");
         c.set(Setting::AllowMissingPositional);
@@ -320,7 +340,7 @@ pub fn hyphen_configs() -> Vec<Conv> {
 }
 
 pub fn hyphen_alphabet() -> Vec<Vec<u8>> {
-    ["v", "-a", "--alpha", "-o", "--opt", "--opt=v", "-ov", "-z", "--unk", "-1", "--", "-az", "w", "sub", "-x", "-1.5", "-", ""]
+    ["v", "-a", "--alpha", "-o", "--opt", "--opt=v", "-ov", "-z", "--unk", "-1", "--", "-az", "w", "sub", "-x", "-1.5", "-", "", "-e", "-ae", "u"]
         .iter()
         .map(|s| s.as_bytes().to_vec())
         .collect()
